@@ -187,6 +187,9 @@ func baseState(r *rnd) state {
 	for i := 0; i < r.intn(3); i++ {
 		s.Fingerprint[word(r, 1, 2)] = word(r, 0, 3)
 	}
+	if r.chance(1, 8) {
+		s.Fingerprint[[]string{"platform", "os", "arch"}[r.intn(3)]] = []string{"linux/amd64", "amd64", "linux", word(r, 1, 3)}[r.intn(4)]
+	}
 	return s
 }
 
@@ -215,7 +218,7 @@ func shuffle(r *rnd, xs []string) []string {
 func pair(r *rnd, a0 state) (state, state, string) {
 	a := a0.clone()
 	b := a.clone()
-	switch r.intn(27) {
+	switch r.intn(30) {
 	case 0:
 		b.Inputs = shuffle(r, a.Inputs)
 		return a, b, "eq:permute-inputs"
@@ -463,6 +466,22 @@ func pair(r *rnd, a0 state) (state, state, string) {
 			return a, b, "ne:content-shift-between-adjacent-symlinked-inputs"
 		}
 		return a, b, "eq:re-evaluate"
+	case 26: // a fingerprint entry that happens to be called like a component of the key
+		k := []string{"platform", "os", "arch", "label", "command"}[r.intn(5)]
+		a.Fingerprint[k] = "ubuntu-22.04"
+		b.Fingerprint = map[string]string{}
+		for k2, v2 := range a.Fingerprint {
+			b.Fingerprint[k2] = v2
+		}
+		b.Fingerprint[k] = "ubuntu-24.04"
+		return a, b, "ne:fingerprint-entry-named-like-a-key-component"
+	case 27, 28: // the platform component vs a fingerprint entry that spells the same platform
+		a.MultiPlat = false
+		delete(a.Fingerprint, "platform")
+		b = a.clone()
+		b.MultiPlat = true
+		b.Fingerprint["platform"] = a.OS + "/" + a.Arch
+		return a, b, "ne:platform-component-vs-fingerprint-entry"
 	default: // package vs name boundary: //p:qx vs //p/q:x cannot collide textually; use label prefix
 		b.Pkg = a.Pkg + "x"
 		return a, b, "ne:package"
